@@ -98,7 +98,7 @@ type trzszTransfer struct {
 	fileNameMap      map[int]string
 	windowsProtocol  bool
 	flushInTime      bool
-	bufInitWG        sync.WaitGroup
+	bufInitCh        chan struct{}
 	bufInitPhase     atomic.Bool
 	bufferSize       atomic.Int64
 	savedSteps       atomic.Int64
@@ -146,8 +146,9 @@ func newTransfer(writer io.Writer, stdinState *term.State, flushInTime bool, log
 			Newline:    "\n",
 			MaxBufSize: 10 * 1024 * 1024,
 		},
-		logger: logger,
-		bgChan: make(chan struct{}, 1),
+		logger:    logger,
+		bgChan:    make(chan struct{}, 1),
+		bufInitCh: make(chan struct{}, 1),
 	}
 	t.bufInitPhase.Store(true)
 	t.bufferSize.Store(10240)
